@@ -196,6 +196,18 @@ def run_shard(types, tier, seed):
         xt.DECL[0] = types[0]  # this process only
         types = types[1]
     res = common.ShardResult()
+    # process history: objects of every other type of the batch exist BEFORE the API of their classes is generated (two
+    # objects of different dynamic extents, read in full): what the classes remember about objects they have built is not
+    # part of their layout
+    for ti, t in enumerate(types):
+        if ti % 2 == 0:
+            for vmode in ("extreme", "alt"):
+                try:
+                    v = xt.gen(t, vmode)
+                    xt.read(t, xt.construct(t, xt.to_py(t, v) if xt.py_expressible(t, v) else xt.to_nd(t, v, "nd")))
+                    res.events["object-before-api"] += 1
+                except Exception:
+                    pass  # (C01's business)
     try:
         ctx, kernels = cseam.build_module(types)
     except Exception as e:
